@@ -34,6 +34,36 @@ CLAIMED = {
         "hook accessors (verif-hooks) are read-only views of pool state; worlds exclude unsafe certificate sets by construction",
         "DESIGN.md §5 C08",
     ),
+    "C11": (
+        "proptest over four shredders x payload lengths x index subsets; round-trip + byte-identical refill + untouched-on-error oracles",
+        "Generated-input search: every padding residue and limit-adjacent length, subset sizes around 32, error paths (too few shreds, mixed slices, validly coded but undecodable content) with the array compared byte for byte before and after; regenerated shreds re-validated from scratch against the leader key.",
+        "Ed25519/SHA-256 trusted; all-or-nothing shredders use the thread RNG for their key (irrelevant to round-trip oracles)",
+        "DESIGN.md §5 C11",
+    ),
+    "C16": (
+        "proptest over validator sets / fanouts / shred triples with two independently built instance sets and a simulated fault-free delivery",
+        "Generated-input search: leader destination and every node's forward set are compared across two independently constructed instance sets, call orders and cache states (incl. sampler / fanout swapped after warm-up), and the recorded sends are simulated to check that every non-leader validator receives each shred exactly once.",
+        "recording network instead of sockets; no loss (premise of the property); the end-to-end node path is exercised by the node simulation of C02/C10",
+        "DESIGN.md §5 C16",
+    ),
+    "C17": (
+        "proptest over all twelve shipped sampling strategies with boundary stake patterns; exact-integer floor oracle, determinism and two-instance agreement",
+        "Generated-input search over validator counts up to 2000, stake patterns that land exactly on seat boundaries, committee sizes and seeds; construction panics are keyed by (strategy, message) and listed as known findings so that the search continues behind them.",
+        "statistical quality is out of scope; decaying-acceptance cases stay in the documented operating range",
+        "DESIGN.md §5 C17",
+    ),
+    "C19": (
+        "proptest wire-level builders for every message type + byte mutation + arbitrary bytes; round-trip / stability / rejection oracles; real loopback UDP for the transport decoder",
+        "Generated-input search: canonical encodings built independently of the crate's encoder must decode and re-encode identically, accessors must agree, out-of-range indices / oversized masks / trailing bytes must be rejected, anything decodable must re-encode stably, emitted messages must fit 1500 bytes; a few hundred cases per run go through UdpNetwork::receive on loopback.",
+        "loopback UDP available (otherwise those cases are labelled unavailable, never a violation)",
+        "DESIGN.md §5 C19",
+    ),
+    "C20": (
+        "proptest stateful op sequences over a forest of forks against BTreeMap models; reference fold for the placeholder engine",
+        "Generated-input search with adversarially clustered keys (prefixes shared up to 255 bits, differences on 5-bit chunk boundaries), forks, empty values; every op's return value, ordered iteration, isolation, structural equality and the incrementally observed commitment are compared with per-fork BTreeMap models; engine commitments are compared with a reference fold over the parent's reported commitment.",
+        "SHA-256 trusted; at most one pending block per slot and no ambiguous parent hashes (as the trait documents)",
+        "DESIGN.md §5 C20",
+    ),
     "C15": (
         "proptest generated trees + mutation of (leaf, index, root, proof) against an independent reference Merkle tree (semantic truth model)",
         "Generated-input search: every tuple derived from a real tree by 0..3 mutations is decided by an independent reference tree over the padded leaf list (exact iff-oracle for check_proof and check_proof_last, incl. subtree roots); shrunk counterexample on failure. Right level because the property is a pure function over inputs with an executable exact oracle.",
